@@ -117,6 +117,15 @@ def _find_base(max_count, num_reserved, uint_max):
 
     """
     base = float64(np.exp(np.log(max_count) / (uint_max - num_reserved)))
+    # With K log counters the base solves 1 + base + ... + base**(K-1) = M, so it is
+    # below M**(1/(K-1)). Starting from that bound Newton's method converges
+    # monotonically. The guess above can land next to the minimum of _func (zero
+    # derivative), overshoot by many orders of magnitude and then need more than the
+    # 200 steps to come back.
+    M = float64(max_count) - float64(num_reserved)
+    K = float64(uint_max - num_reserved)
+    if K > 1.0 and M > K:
+        base = float64(np.exp(np.log(M) / (K - 1.0)))
 
     for i in range(200):
         fprime = _funcprime(base, max_count, num_reserved, uint_max)
